@@ -372,8 +372,46 @@ def _sib_calls(f):
     return out
 
 
+# by-reference / in-place twins of one arithmetic helper: same multiset of arithmetic steps
+ARITH_SIBLINGS = [("dashu_float::utils::shl_digits", "dashu_float::utils::shl_digits_in_place")]
+
+
+def _arith_skeleton(f):
+    """multiset of the arithmetic steps of a helper: operator calls on big integers (assign forms and
+    reference forms merged), named helper calls, primitive arithmetic; comparisons and clones dropped"""
+    from collections import Counter
+    c = Counter()
+    for i, j, st in mir.iter_stmts(f["mir"]):
+        if st["k"] == "as" and st["rv"]["k"] == "bin":
+            op = st["rv"]["op"].replace("WithOverflow", "")
+            if op not in ("Eq", "Ne", "Lt", "Le", "Gt", "Ge"):
+                c["prim:" + op] += 1
+    for bb, t, fr in mir.iter_calls(f["mir"]):
+        cp = fr and (fr.get("rp") or fr["p"])
+        if not cp or "clone" in cp or "core::panicking" in cp:
+            continue
+        m = re.search(r"core::ops::(?:arith|bit)::(\w+?)(?:Assign)?<?", cp)
+        if m:
+            c["op:" + m.group(1).replace("Assign", "")] += 1
+        else:
+            c["call:" + cp.rsplit("::", 1)[-1]] += 1
+    return c
+
+
 def _r15_5(res, P, cfgname):
     fns = {f["p"]: f for f in P.fns("dashu_float")}
+    for a, b in ARITH_SIBLINGS:
+        fa, fb = fns.get(a), fns.get(b)
+        key = "%s ~ %s (arithmetic steps)" % (a.rsplit("::", 1)[1], b.rsplit("::", 1)[1])
+        if fa is None or fb is None:
+            res.anchor("R15.5", cfgname, "sibling pair " + key)
+            continue
+        sa, sb = _arith_skeleton(fa), _arith_skeleton(fb)
+        if sa == sb:
+            res.ok("R15.5", cfgname, key, sample=dict(pair=[a, b], steps=dict(sa)))
+        else:
+            diff = {k: (sa[k], sb[k]) for k in set(sa) | set(sb) if sa[k] != sb[k]}
+            res.fail("R15.5", cfgname, key, "the by-reference and in-place twins %s / %s perform different arithmetic steps (step: count in the first vs the second): %s — one of them handles some bases differently" % (a.rsplit("::", 1)[1], b.rsplit("::", 1)[1], diff), span_loc(fb["sp"]))
     for a, b, shared in SIBLINGS:
         fa, fb = fns.get(a), fns.get(b)
         key = "%s ~ %s" % (a.rsplit("::", 1)[1], b.rsplit("::", 1)[1])
